@@ -407,6 +407,12 @@ func (s *SimRunner) Kill(ctx ctxT) error {
 	s.mu.Lock()
 	s.Kills++
 	s.mu.Unlock()
+	// like a container-style runner, honour the context: a cancelled or
+	// expired context means the request is not carried out
+	if err := ctx.Err(); err != nil {
+		s.r.W.Probe("runner.kill-with-dead-context")
+		return err
+	}
 	if s.cmd.Process == nil {
 		return nil
 	}
